@@ -80,8 +80,12 @@ class CachingMachine(Machine):
                 r = (hi - lo) / cells * rng.choice([1.0, 1.0, 0.97, 1.02])
                 if rng.random() < 0.08:
                     r = (hi - lo) * rng.uniform(1.0, 1.5)       # coarser than the area: one cell
+                r = round(r, 6)
+                if rng.random() < 0.07:
+                    # grid aligned with the coordinate origin: the lower padding node (min - resolution) is exactly 0
+                    lo, hi = r, round(r + extent, 6)
                 area.append([lo, hi])
-                res.append(round(r, 6))
+                res.append(r)
             # the cache stores each cell's cubic in the power basis about the origin, so its own rounding
             # noise grows like eps * prod_i (1 + |x_i|/h_i)^3; keep configurations in which that noise
             # model stays below 1e-5 of the function range (see conditioning())
@@ -97,7 +101,10 @@ class CachingMachine(Machine):
             res = [r * xscale for r in res]
             func["xscale"] = xscale
         fbmode = rng.choices(["none", "true", "loose", "degenerate"], weights=[45, 25, 20, 10])[0]
-        nested = family == "multilinear" and rng.random() < 0.2
+        # the wrapped function is itself a cache (of the same class) on another, wider grid: for multilinear functions it
+        # reproduces f exactly and every clause applies; otherwise the oracle is the inner cache itself (node equality,
+        # pass-through and history independence; the curvature clause is stated for smooth functions and is skipped)
+        nested = rng.random() < (0.2 if family == "multilinear" else 0.08)
         config = {"dim": dim, "area": area, "res": res, "nbe": rng.random() < 0.4, "fbmode": fbmode, "nested": nested,
                   "func": func, "faults": rng.random() < 0.45,
                   "fault_kind": rng.choice(["error", "interrupt"])}
@@ -258,6 +265,9 @@ class CachingMachine(Machine):
             H.append(max(h, r))
         c.curv = sum(H[i] * H[j] * c.ref.second_derivative_bound(box, i, j) for i in range(c.dim) for j in range(c.dim))
         c.exact = cfg["func"]["family"] == "multilinear"
+        c.inner_ref = None
+        if cfg.get("nested") and not c.exact:
+            c.inner_ref = self._inner(cfg, SimFunction(c.dim, cfg["func"]))       # a private copy of the wrapped cache
         c.failed_cells = set()
         c.fired = 0
         c.sampled = set()
@@ -309,7 +319,7 @@ class CachingMachine(Machine):
             if c.cfg["nbe"]:
                 if how != "ok":
                     raise Violation("outside-passthrough", who, "p=%r outside the area with no_boundary_error: raised %r" % (p, val))
-                fv = c.ref.value(*p)
+                fv = c.ref.value(*p) if c.inner_ref is None else float(c.inner_ref(*p))
                 same = (val == fv or (val != val and fv != fv))
                 if c.cfg.get("nested"):
                     same = same or abs(val - fv) <= 1e-12 * c.range      # the wrapped function is itself a cache of f
@@ -330,6 +340,8 @@ class CachingMachine(Machine):
         err = abs(val - fv)
         if not (val == val):
             raise Violation("nan-result", who, "p=%r returned NaN, f=%r" % (p, fv))
+        if c.inner_ref is not None:
+            return
         if c.exact:
             if err > tol:
                 raise Violation("multilinear-exact", who, "p=%r cache=%r f=%r err=%g tol=%g" % (p, val, fv, err, tol))
@@ -344,6 +356,14 @@ class CachingMachine(Machine):
     def _node_clause(self, c, p, val, env, who="subject"):
         """If p is a point at which the cache itself sampled f, cache(p) must equal f(p)."""
         tp = tuple(float(v) for v in p)
+        if c.inner_ref is not None:
+            # the wrapped function is a cache: the outer cache's own sampling nodes are known from its grid
+            if self._inside(c, p) and all(any(v == float(x) for x in nd[1:-1]) for v, nd in zip(tp, c.nodes)):
+                fv = float(c.inner_ref(*tp))
+                if abs(val - fv) > c.tol_f:
+                    raise Violation("node-equality", who, "sampling node p=%r cache=%r wrapped cache=%r" % (p, val, fv))
+                env.probe("node_equality_checked_nested")
+            return
         if tp in c.sampled:
             fv = c.ref.value(*p)
             if abs(val - fv) > c.tol_f:
@@ -493,7 +513,11 @@ class CachingMachine(Machine):
                 env.digest.add(val)
         # every point the subject sampled inside the area is a sampling node: check equality there
         checked = 0
-        for q in sorted(c.sampled):
+        nodes_to_check = sorted(c.sampled)
+        if c.inner_ref is not None:
+            import itertools
+            nodes_to_check = list(itertools.islice(itertools.product(*[[float(x) for x in nd[2:-2]] for nd in c.nodes]), 40))
+        for q in nodes_to_check:
             if self._inside(c, q) and all(a[0] + 2 * EPS < v < a[1] - 2 * EPS for a, v in zip(c.cfg["area"], q)):
                 how, val = self._call(c.subject, list(q))
                 if how != "ok":
